@@ -235,7 +235,7 @@ def _unique_name(params: Any) -> str:
     if all_scalar:
         # Format: `pname1=pval1 pname2=pval2 pname3=pval3`
         keys = params.__params__.keys()
-        name = " ".join(f"{k}={str(getattr(params, k))}" for k in keys)
+        name = " ".join(f"{k}={str(_named_value(getattr(params, k)))}" for k in keys)
 
         # These names must also be limited in length, for sake of our favorite output formats.
         # If the generated name is too long, use the hashing method below instead
@@ -260,6 +260,15 @@ def _unique_name(params: Any) -> str:
     h.update(data)
     # And return the (hex) digest as our unique name
     return h.hexdigest()
+
+
+def _named_value(val: Any) -> Any:
+    """The value which parameter-value `val` is named by.
+    Negative zero *equals* zero, so `f=-0.0` and `f=0.0` are one parameter value, and are both named as `0.0`.
+    (Otherwise the name of their one Module would be that of whichever was called first.)"""
+    if isinstance(val, float) and val == 0.0:
+        return 0.0
+    return val
 
 
 def _value_name(num: Decimal) -> str:
@@ -329,7 +338,7 @@ def hdl21_naming_encoder(obj: Any) -> Any:
     # often invoking methods not supported on several Hdl21 types.
     # Convert to (shallow) dictionaries instead.
     if dataclasses.is_dataclass(obj):
-        return {f.name: getattr(obj, f.name) for f in dataclasses.fields(obj)}
+        return {f.name: _named_value(getattr(obj, f.name)) for f in dataclasses.fields(obj)}
 
     # Not an Hdl21 type. Hand off to pydantic.
     return pydantic_json_encoder(obj)
